@@ -203,6 +203,17 @@ fn trial<C: Suite>(name: &str, scen: &Scenario, run: &Runner<C>, min_listed: usi
         for di in reqs {
             let (off, len) = draws[di];
             let mut cands: Vec<(&str, Vec<u8>)> = vec![("zeroes", vec![0u8; len])];
+            // answers that encode an integer at or above the group order in either byte order (suites that sample by rejection
+            // must draw AGAIN - consuming more of the source - and not fall back to a fixed value)
+            if len >= 2 {
+                let mut a = vec![0xffu8; len];
+                cands.push(("all ff", a.clone()));
+                a[len - 1] = 0xfe;
+                cands.push(("ff..fe", a.clone()));
+                a[len - 1] = 0xff;
+                a[0] = 0xfe;
+                cands.push(("fe..ff", a));
+            }
             for (n, c) in &specials {
                 if let Some(c) = c {
                     if c.len() == len {
@@ -214,7 +225,7 @@ fn trial<C: Suite>(name: &str, scen: &Scenario, run: &Runner<C>, min_listed: usi
                 rep.probe("special_draw_no_candidates");
                 continue;
             }
-            let mut outs: Vec<(&str, Out)> = Vec::new();
+            let mut outs: Vec<(&str, Out, usize)> = Vec::new();
             for (cn, c) in &cands {
                 let mut st = recorded.clone();
                 st[off..off + len].copy_from_slice(c);
@@ -222,12 +233,21 @@ fn trial<C: Suite>(name: &str, scen: &Scenario, run: &Runner<C>, min_listed: usi
                 rep.evaluations += 1;
                 // an unusable draw may legitimately make the call fail (e.g. a zero coefficient): no verdict then
                 match std::panic::catch_unwind(std::panic::AssertUnwindSafe(|| run(&mut r))) {
-                    Ok(Ok(o)) => outs.push((*cn, o)),
+                    Ok(Ok(o)) => {
+                        let used = r.total();
+                        outs.push((*cn, o, used))
+                    }
                     _ => rep.probe("special_draw_call_failed"),
                 }
             }
             for i in 0..outs.len() {
                 for j in (i + 1)..outs.len() {
+                    // two answers that were both refused and drawn again continue on the same following bytes: equal values are
+                    // then legitimate (the run consumed more of the source than the recording did)
+                    if outs[i].2 > recorded.len() && outs[j].2 > recorded.len() {
+                        rep.probe("special_draw_both_redrawn");
+                        continue;
+                    }
                     for l in &o0.listed {
                         let (Some(a), Some(b)) = (outs[i].1.all.get(l), outs[j].1.all.get(l)) else { continue };
                         if a == b && Some(a) != o0.all.get(l) {
